@@ -57,6 +57,12 @@ def opOfJson (j : Json) : Except String Op := do
   | "copyView" => do .ok (.copyView (← asNat (← argAt j 1)) (← asNat (← argAt j 2)))
   | "pop" => do .ok (.pop (← asNat (← argAt j 1)) (← asStr (← argAt j 2)))
   | "pickle" => do .ok (.pickle (← asNat (← argAt j 1)))
+  | "unflatten" => do
+      let ks ← asList (fun p => do
+        let k ← asStr (← argAt p 0)
+        let i ← asNat (← argAt p 1)
+        pure (k, i)) (← argAt j 1)
+      .ok (.unflatten ks)
   | "treeMap" => do .ok (.treeMap (← asNat (← argAt j 1)))
   | _ => .error "bad-args"
 
